@@ -105,6 +105,79 @@ Lemma example_inhabited :
   Cfg.run 1000 w_example = Done [2; 0; 7; -16; 7; -1226; 7; -6007402; 7]%Z true.
 Proof. vm_compute. auto. Qed.
 
+(* ------------------------------------------------------------------ switch *)
+
+Definition P (z : Z) : stmt := SPrint (ALit z).
+
+(** x0 := 3
+    for x3 := 0; x3 < 5; x3++ {
+      switch x2 := x3 % 4; x2 { case 0: P 60; fallthrough
+                                case 1, x0: P 61; if x3 == 1 { break }; P 62
+                                case x0 - 1: continue
+                                default: P 63 }
+      switch { case x3 > 3: x0 := 7; Println(x0); fallthrough
+               case false: Println(x0)
+               case 6 / (x3 - 2) == 6: }
+      P 64 } *)
+Definition w_switch_example : program :=
+  [SDefine x0 (ALit 3);
+   SFor (Some (SDefine x3 (ALit 0))) (Some (BCmp Lt (AVar x3) (ALit 5))) (Some (SIncDec true x3))
+     [SSwitch (Some (SDefine x2 (ABin Rem (AVar x3) (ALit 4)))) (Some (AVar x2))
+        [SCase (CInts [ALit 0]) [P 60] true;
+         SCase (CInts [ALit 1; AVar x0]) [P 61; SIf None (BCmp Eq (AVar x3) (ALit 1)) [SBreak] None; P 62] false;
+         SCase (CInts [ABin Sub (AVar x0) (ALit 1)]) [SContinue] false;
+         SCase CDefault [P 63] false];
+      SSwitch None None
+        [SCase (CBools [BCmp Gt (AVar x3) (ALit 3)]) [SDefine x0 (ALit 7); SPrint (AVar x0)] true;
+         SCase (CBools [BLit false]) [SPrint (AVar x0)] false;
+         SCase (CBools [BCmp Eq (ABin Quo (ALit 6) (ABin Sub (AVar x3) (ALit 2))) (ALit 6)]) [] false];
+      P 64]].
+
+Lemma switch_example :
+  GoSem.run 1000 w_switch_example = Done [60; 61; 62; 64; 61; 64; 61; 62; 64; 60; 61; 62; 7; 3; 64]%Z false /\
+  Cfg.run 4000 w_switch_example = Done [60; 61; 62; 64; 61; 64; 61; 62; 64; 60; 61; 62; 7; 3; 64]%Z false.
+Proof. vm_compute. auto. Qed.
+
+(** x0 := 3; switch { default: P 1; case x0 > 0: P 2; case true: }: the default clause is swapped with
+    the last clause, so [case true] is tried before [case x0 > 0]. *)
+Definition w_default_order : program :=
+  [SDefine x0 (ALit 3);
+   SSwitch None None [SCase CDefault [P 1] false; SCase (CBools [BCmp Gt (AVar x0) (ALit 0)]) [P 2] false; SCase (CBools [BLit true]) [] false]].
+
+Lemma switch_default_order_refuted :
+  GoSem.run 100 w_default_order = Done [2]%Z false /\ Cfg.run 1000 w_default_order = Done [] false.
+Proof. vm_compute. auto. Qed.
+
+(** switch x0 := 10; x0 % 6 { case 0: P 1; case 4: P 2 }: with an init statement the tag is never entered,
+    the cases are compared with the zero value of its slot. *)
+Definition w_init_tag : program :=
+  [SSwitch (Some (SDefine x0 (ALit 10))) (Some (ABin Rem (AVar x0) (ALit 6)))
+     [SCase (CInts [ALit 0]) [P 1] false; SCase (CInts [ALit 4]) [P 2] false]].
+
+Lemma switch_init_tag_refuted :
+  GoSem.run 100 w_init_tag = Done [2]%Z false /\ Cfg.run 1000 w_init_tag = Done [1]%Z false.
+Proof. vm_compute. auto. Qed.
+
+(** x0 := 3; x1 := 5
+    switch x0 { case 1, x1 - 2: P 10; default: P 12 }        only c.child[0] of a clause is wired
+    switch { case x0 > 5, x1 > 4: P 30; default: P 32 }      only the first condition is used *)
+Definition w_case_list : program :=
+  [SDefine x0 (ALit 3); SDefine x1 (ALit 5);
+   SSwitch None (Some (AVar x0)) [SCase (CInts [ALit 1; ABin Sub (AVar x1) (ALit 2)]) [P 10] false; SCase CDefault [P 12] false];
+   SSwitch None None [SCase (CBools [BCmp Gt (AVar x0) (ALit 5); BCmp Gt (AVar x1) (ALit 4)]) [P 30] false; SCase CDefault [P 32] false]].
+
+Lemma switch_case_list_refuted :
+  GoSem.run 100 w_case_list = Done [10; 30]%Z false /\ Cfg.run 1000 w_case_list = Done [12; 32]%Z false.
+Proof. vm_compute. auto. Qed.
+
+(** x0 := 0; P 1; switch 1 / x0 { }; P 2: a switch without clauses is not wired at all, its tag is skipped. *)
+Definition w_switch_empty : program :=
+  [SDefine x0 (ALit 0); P 1; SSwitch None (Some (ABin Quo (ALit 1) (AVar x0))) []; P 2].
+
+Lemma switch_empty_refuted :
+  GoSem.run 100 w_switch_empty = Done [1]%Z true /\ Cfg.run 1000 w_switch_empty = Done [1; 2]%Z false.
+Proof. vm_compute. auto. Qed.
+
 (** The property as stated, for MiniGo: every program that terminates under Go's semantics terminates
     under yaegi's with the same output and the same ending. *)
 Definition C01_statement_def : Prop :=
